@@ -52,5 +52,6 @@ def init_from_config(
         random_seed=random_seed,
         parent_deme=parent_deme,
     )
-    merged_config_class_to_deme_class = config_class_to_deme_class | CONFIG_CLASS_TO_DEME_CLASS
+    # The user's registrations take precedence over the built-in table.
+    merged_config_class_to_deme_class = CONFIG_CLASS_TO_DEME_CLASS | config_class_to_deme_class
     return merged_config_class_to_deme_class[type(config)](deme_init_args)  # type: ignore[abstract]
